@@ -26,8 +26,13 @@ class C01(framework.PropertyCheck):
                    'keep_signals and FST traces are not covered']
 
     def cases(self, rng, tier, n):
-        for _ in range(n):
-            yield {'vf': gen_trace.gen_vcd(rng, min_ts=1), 'layout': rng.randrange(1 << 30)}
+        for k in range(n):
+            c = {'vf': gen_trace.gen_vcd(rng, min_ts=1), 'layout': rng.randrange(1 << 30)}
+            if k % 5 == 4:
+                # the file is read the same whatever was loaded (and unloaded again) before it: another file that uses the same
+                # identifier codes with other widths and values has come and gone
+                c['history'] = rng.randrange(1 << 30)
+            yield c
         if tier == 'thorough':
             import itertools
             ids = ['!', '#', 'b', '1']
@@ -58,6 +63,11 @@ class C01(framework.PropertyCheck):
         den = gen_trace.denote(vf)
         text = gen_trace.render(vf, random.Random(case['layout']))
         steps = [('loadvcd', 't0', text), ('eval', 'eorg', '(list SIGNALS SCOPES MAX-INDEX INDEX)')]
+        if case.get('history') is not None:
+            ids = sorted({h[3] for h in vf['header'] if h[0] == 'var'})[:6] or ['!']
+            aux = {'header': [['scope', 'module', 'other']] + [['var', 'wire', 3, i, f'o{k}', None] for k, i in enumerate(ids)] + [['upscope']],
+                   'dump': [['time', 0]] + [['vector', '101', i] for i in ids] + [['time', 7]] + [['vector', '010', i] for i in ids]}
+            steps = [('loadvcd', 'zz', gen_trace.render(aux, random.Random(case['history']))), steps[0], ('unload', 'zz'), steps[1]]
         names = den['signals']
         q = '(list INDEX TS ' + ' '.join(f'(get {qs(n)})' for n in names) + ')'
         steps.append(('eval', 'eorg', '(list ' + ' '.join(f'(signal-width {qs(n)})' for n in names) + ')'))
@@ -70,6 +80,10 @@ class C01(framework.PropertyCheck):
         den = gen_trace.denote(case['vf'])
         names = den['signals']
         n = len(den['timestamps'])
+        if case.get('history') is not None:
+            if len(iobs) < 3 or iobs[0] != ('ok',) or iobs[2] != ('ok',):
+                return {'what': 'loading / unloading the other file failed', 'obs': iobs[:3]}
+            iobs = iobs[1:2] + iobs[3:]
         if not iobs or iobs[0] != ('ok',):
             return {'what': 'well-formed file rejected', 'obs': iobs[:1]}
         want0 = ('L', True, (('L', False, tuple(('S', s) for s in names)), ('L', False, tuple(('S', s) for s in den['scopes'])),
